@@ -25,6 +25,7 @@ from harness import values as V
 from harness.core import cbool, clist, cnat, copt, err_name
 
 PID = "C14"
+TRANSLATE = ["EqSort.v"]     # translator tie: coq/gen_proofs/EqSort.v is re-proved against definitions regenerated from /repo
 PRELUDE = ("From Coq Require Import List ZArith.\nImport ListNotations.\n"
            "From Serif Require Import Base.PyVal Model.Sort Corr.C14.")
 FAILING = "C14.failing"
